@@ -14,6 +14,9 @@ JOBS = [
   Job("c01.entry_point", TU, "h_entry_point", replace=["myth_entry_point_cleanup/cleanup_contract"],
       restrict_fp=["myth_entry_point.function_pointer_call.1/verif_user_fn"], fuc=["myth_entry_point"], timeout=200),
   Job("c01.exit", TU, "h_exit", replace=["myth_entry_point_cleanup/cleanup_contract"], fuc=["myth_exit_body"], timeout=200),
+  Job("c01.testcancel", TU, "h_testcancel", replace=["myth_entry_point_cleanup/cleanup_contract"], cbmc=["--unwind", "3"],
+      fuc=["myth_testcancel_body", "myth_is_canceled"], timeout=200,
+      note="the record's spin lock is free in the harness (the real spin lock body runs; its loop does not iterate)"),
   Job("c01.join_1", TU, "h_join_1", replace=["free_myth_thread_struct_desc/free_desc_contract"], fuc=["myth_join_1"], timeout=200),
 ]
 # the finish side and the join side of the same protocol are under contract in unit C12; they carry C01's clauses
